@@ -508,3 +508,66 @@ func advance(v reflect.Value, k, depth int, n *int) {
 		}
 	}
 }
+
+// WalkLive visits the positions of a value that are actually encoded (the
+// present side of Maybe / Either, the selected constructor of a union) and calls
+// f on the leaves of kind KCellRef and KAny with the settable Go value.
+func (d *Desc) WalkLive(v reflect.Value, f func(d *Desc, v reflect.Value)) {
+	if d.Ptr && d.K != KMaybe && d.K != KMaybeRef {
+		if v.IsNil() {
+			return
+		}
+		cp := *d
+		cp.Ptr = false
+		cp.T = d.T.Elem()
+		cp.WalkLive(v.Elem(), f)
+		return
+	}
+	switch d.K {
+	case KCellRef:
+		if d.InRef {
+			v = v.FieldByName("Value")
+		}
+		f(d, v)
+	case KAny:
+		f(d, v)
+	case KMaybe, KMaybeRef:
+		if d.Ptr {
+			if !v.IsNil() {
+				d.Sub[0].WalkLive(v.Elem(), f)
+			}
+			return
+		}
+		if v.FieldByName("Exists").Bool() {
+			d.Sub[0].WalkLive(v.FieldByName("Value"), f)
+		}
+	case KEither:
+		if v.FieldByName("IsRight").Bool() {
+			d.Sub[1].WalkLive(v.FieldByName("Right"), f)
+		} else {
+			d.Sub[0].WalkLive(v.FieldByName("Left"), f)
+		}
+	case KEitherRef:
+		d.Sub[0].WalkLive(v.FieldByName("Value"), f)
+	case KRef:
+		if genericBase(d.T) == "Ref" && d.T.PkgPath() == tlbPkg {
+			d.Sub[0].WalkLive(v.FieldByName("Value"), f)
+		} else {
+			d.Sub[0].WalkLive(v, f)
+		}
+	case KStruct:
+		if d.Signed || len(d.Fields) != len(d.Sub) {
+			return
+		}
+		for i, s := range d.Sub {
+			s.WalkLive(v.Field(d.Fields[i]), f)
+		}
+	case KSum:
+		name := v.FieldByName("SumType").String()
+		for _, al := range d.Alts {
+			if al.Name == name && al.D.K != KVoid {
+				al.D.WalkLive(v.Field(al.Idx), f)
+			}
+		}
+	}
+}
